@@ -9,8 +9,10 @@
     (attribute node: non-empty prefix only; own no-namespace element name refused under a default
     namespace), full_name, name_ref / RefName::from_node, node_name,
     node_name_ref, unresolved_namespaces (FullnameSerializer stack starting EMPTY; a name is
-    unresolved when `element_prefix` / `attribute_prefix` fails), inherited_prefixes, deduplicate_namespaces (traverse + DeduplicateTracker +
-    fix-up list + removal of namespace nodes).
+    unresolved when `element_prefix` / `attribute_prefix` fails), inherited_prefixes,
+    deduplicate_namespaces (as of /repo d434a2d: passes of `deduplicate_namespaces_pass` — traverse
+    with the stack of kept declarations, `is_redundant_declaration`, `to_remove`, removal of
+    namespace nodes — until a pass removes nothing).
 
   `namespaces_in_scope` / `namespace_traverse` itself lives in `Model/Names.lean`.
   The specification `scopeSpec` (nearest declaration wins) is at the end.
